@@ -4,8 +4,10 @@ from vlib import core
 
 THEOREMS = ['consts', 'src_negotiate', 'src_classes_wf', 'src_picks_min', 'frames_eq', 'no_negotiation', 'picks_min', 'picks_min_ok', 'unsupported_is_1_0_1', 'set_only_if_needed',
             'negotiation_frames_v1_1', 'set_payload_denotes_version', 'supported_reply_decodes', 'failures_fail',
-            'supported_none_iff', 'accepted_false_iff', 'after_version', 'result_version', 'stamped_after']
-MODULES = ['LLRP.Model.Negotiate', 'LLRP.Model.GoSeq', 'LLRP.Proofs.SeqNegotiate', 'LLRP.Model.WriteSide', 'LLRP.Proofs.WriteSide', 'LLRP.Oracle.C06']
+            'supported_none_iff', 'accepted_false_iff', 'after_version', 'result_version', 'stamped_after',
+            # about the go2seq translation of the write loop, for every behaviour of the environment
+            'src_stamping']
+MODULES = ['LLRP.Proofs.SeqWriteLoop', 'LLRP.Model.Negotiate', 'LLRP.Model.GoSeq', 'LLRP.Proofs.SeqNegotiate', 'LLRP.Model.WriteSide', 'LLRP.Proofs.WriteSide', 'LLRP.Oracle.C06']
 RULE = ('scripted independent reader over net.Pipe (frames built and parsed by hand): client maxima {1.0.1, 1.1} x reader (current, max) in '
         '{0..7}x{0..7} (plus whole-byte values beyond 3 bits and the shifted form 0x20/0x40) x first reaction {success, GetSupportedVersionResponse '
         'with error status, ERROR_MESSAGE with status 110/0/100/101/401/65535, wrong type (57, 4, 12, 1023), undecodable (6 shapes), oversize, '
